@@ -20,7 +20,7 @@ from gym_gridverse.state import State
 from gym_gridverse import spaces as spaces_mod
 
 from .. import compose, enc, gen, workloads
-from ..monitor import call_real, describe_exc, env_rng, exc_site, reach, stateful_slots
+from ..monitor import call_real, describe_exc, env_rng_state_repr, exc_site, reach, stateful_slots
 
 ID = 'C01'
 LEVEL = 'exploration'
@@ -344,8 +344,7 @@ def predicate_probes(ctx, env, decl, state, label, payload_fn):
 
 
 def rng_state(env):
-    r = env_rng(env)
-    return None if r is None else repr(r.bit_generator.state)
+    return env_rng_state_repr(env)
 
 
 class _Junk:
